@@ -3,8 +3,10 @@
 derived from one random.Random(seed) so a disagreement replays exactly."""
 import random
 
-RULES_SET = ["fr", "qr"]
-RULES_REL = ["fr", "qr", "ir"]
+# the library defaults (fully-reduced sets, identity-reduced relations) are the
+# main code paths: weighted accordingly
+RULES_SET = ["fr", "fr", "qr"]
+RULES_REL = ["ir", "ir", "fr", "qr"]
 STOR = ["full", "sparse", "both"]
 MMS = ["orig", "array", "malloc", "heap"]
 DELS = ["opt", "pess", "never"]
@@ -802,6 +804,13 @@ def gen_C09(rng):
     ctx = Ctx(rng)
     ctx.emit("init")
     d = rand_domain(rng, "D", False, 60, 3)
+    if rng.random() < 0.5:
+        # markedly non-uniform sizes, small variable on top of a larger one and vice versa
+        k = rng.choice([2, 3])
+        sizes = [rng.choice([2, 5]) for _ in range(k)]
+        if k == 3 and sizes[0] * sizes[1] * sizes[2] > 60:
+            sizes[rng.randrange(3)] = 2
+        d = Domain("D", sizes)
     ctx.emit(d.decl())
     ints = rng.random() < 0.35
     rg = "int" if ints else "bool"
@@ -809,11 +818,43 @@ def gen_C09(rng):
     rels = [Forest("R%d" % i, d, True, rg, "mt", rng.choice(RULES_REL), rand_opts(rng)) for i in range(rng.choice([1, 2, 3]))]
     for f in sets + rels:
         ctx.emit(f.decl())
+    local = rng.random() < 0.5
     for i in range(rng.randint(1, 3)):
         f = rng.choice(sets)
-        gen_coll(ctx, f, "s%d" % i)
+        if local and not ints:
+            # sets that do not depend on the upper variables (skipped levels)
+            parts = ["coll", "s%d" % i, f.name, "max", "0"]
+            top_free = rng.randint(1, len(d.sizes))
+            for _ in range(rng.choice([1, 2, 3])):
+                pos = [("x" if (k >= len(d.sizes) - top_free or rng.random() < 0.2) else str(rng.randrange(sz)))
+                       for k, sz in enumerate(d.sizes)]
+                parts += [";"] + pos + ["=>", "1"]
+            ctx.emit(" ".join(parts))
+            ctx.edges["s%d" % i] = f
+        else:
+            gen_coll(ctx, f, "s%d" % i)
     for i in range(rng.randint(1, 3)):
-        gen_rel_minterms(ctx, rng.choice(rels), "r%d" % i)
+        fr_ = rng.choice(rels)
+        if local:
+            # "local events": most variables unchanged, one or two really move
+            name = "r%d" % i
+            parts = ["coll", name, fr_.name, "max", "0"]
+            for _ in range(rng.choice([1, 2, 3])):
+                pos = []
+                for sz in d.sizes:
+                    r = rng.random()
+                    if r < 0.55:
+                        pos += ["x", "="]
+                    elif r < 0.65:
+                        pos += [str(rng.randrange(sz)), "="]
+                    else:
+                        pos += [str(rng.randrange(sz)), str(rng.randrange(sz))]
+                v = "1" if fr_.range == "bool" else str(rng.choice([1, 2, 3]))
+                parts += [";"] + pos + ["=>", v]
+            ctx.emit(" ".join(parts))
+            ctx.edges[name] = fr_
+        else:
+            gen_rel_minterms(ctx, fr_, "r%d" % i)
     ss = [e for e in ctx.edges if not ctx.edges[e].rel]
     rr = [e for e in ctx.edges if ctx.edges[e].rel]
     for _ in range(rng.randint(3, 8)):
